@@ -88,6 +88,32 @@ theorem crossings_eq (c : Contour α) (pt : Point α) (h : ∀ e ∈ Contour.edg
   have := edgeHit_iff pt e.1 e.2 (h e he)
   simp [this]
 
+theorem parity_count_sum (l : List Nat) : (l.countP (fun n => n % 2 == 1)) % 2 = l.sum % 2 := by
+  induction l with
+  | nil => rfl
+  | cons a t ih =>
+    simp only [List.countP_cons, List.sum_cons]
+    split
+    · rename_i h; simp only [beq_iff_eq] at h; omega
+    · rename_i h; simp only [beq_iff_eq] at h; omega
+
+/-- the number of contours that `Contain` the point has the parity of the crossings summed over all edges of all
+    contours, for points that lie on no edge -/
+theorem evenodd_parity (p : Polygon α) (pt : Point α)
+    (h : ∀ c ∈ p, ∀ e ∈ Contour.edges c, ¬ OnEdge pt e.1 e.2) :
+    (p.countP (fun c => Contour.contains c pt)) % 2 =
+      ((p.map (fun c => (Contour.edges c).countP (fun e => decide (Crosses pt e.1 e.2)))).sum) % 2 := by
+  have e1 : p.countP (fun c => Contour.contains c pt) =
+      (p.map (fun c => Contour.crossings c pt)).countP (fun n => n % 2 == 1) := by
+    rw [List.countP_map]; rfl
+  rw [e1, parity_count_sum]
+  have e2 : p.map (fun c => Contour.crossings c pt) =
+      p.map (fun c => (Contour.edges c).countP (fun e => decide (Crosses pt e.1 e.2))) := by
+    apply List.map_congr_left
+    intro c hc
+    exact crossings_eq c pt (h c hc)
+  rw [e2]
+
 end Field
 
 section Bounds
